@@ -190,6 +190,11 @@ class ColumnExpressionSequence(ColumnContainer):
     dtype: type | None
     """The Python type of the elements in the container (`type` or `None`)."""
 
+    def __post_init__(self) -> None:
+        # Store the items as a tuple so the (frozen) container is hashable
+        # regardless of the kind of sequence it was constructed from.
+        object.__setattr__(self, "items", tuple(self.items))
+
     @property
     @cached_getter
     def columns_required(self) -> Set[ColumnTag]:
